@@ -37,7 +37,7 @@ ASSUMPTIONS = [
 ]
 BUDGET = {
     "quick": {"shards": 16, "examples": 30, "wall": 110, "fit_examples": 2},
-    "thorough": {"shards": 16, "examples": 1500, "wall": 1200, "fit_examples": 20},
+    "thorough": {"shards": 16, "examples": 15000, "wall": 900, "fit_examples": 200},
 }
 
 
